@@ -37,6 +37,27 @@ func smallTree() []Node {
 	}
 }
 
+// ovScripts gives format f an override scripts block for the given common slots, with bytes distinct from every other script.
+func ovScripts(c *Cfg, f string, slots []string) []Node {
+	if c.Ov == nil {
+		c.Ov = map[string]*OvCfg{}
+	}
+	if c.Ov[f] == nil {
+		c.Ov[f] = &OvCfg{}
+	}
+	o := c.Ov[f]
+	o.Scripts, o.ScriptCid, o.ScriptMt = map[string]string{}, map[string]string{}, map[string]int{}
+	var nodes []Node
+	for i, sl := range slots {
+		body := []byte(fmt.Sprintf("#!/bin/sh\n# override of %s for %s\nexit 0\n", sl, f))
+		p := fmt.Sprintf("scripts/ov_%s_%s.sh", f, sl)
+		mt := 1430000000 + i*1000 + len(f)
+		nodes = append(nodes, Node{P: p, Kind: "file", Mode: 0o755, Mt: mt, Size: len(body), data: body, Cid: cidOf(body)})
+		o.Scripts[sl], o.ScriptCid[sl], o.ScriptMt[sl] = p, cidOf(body), mt
+	}
+	return nodes
+}
+
 func systematicPkgCases(id *int, profile, scratch string, rng *rand.Rand, tier string) []*PkgCase {
 	var out []*PkgCase
 	add := func(c *Cfg, nodes []Node, sub string) {
@@ -175,6 +196,28 @@ func systematicPkgCases(id *int, profile, scratch string, rng *rand.Rand, tier s
 			c.Platform = "darwin"
 			add(c, smallTree(), "platform")
 		}
+		// override blocks: lists are replaced wholesale by a non-empty override, untouched otherwise; another format's block has no effect
+		for variant := 0; variant < 4; variant++ {
+			c := baseCfg("ovrelpkg")
+			if variant != 1 {
+				c.Depends, c.Recommends, c.Suggests = []string{"base-dep >= 1.2.3-0", "base-lib-devel"}, []string{"base-rec"}, []string{"base-sug"}
+				c.Conflicts, c.Replaces, c.Provides = []string{"base-con"}, []string{"base-rep"}, []string{"base-prov = 1"}
+			}
+			c.Ov = map[string]*OvCfg{
+				"deb":       {Depends: []string{"base-dep (>= 1.2.3-0)", "base-lib-dev"}},
+				"rpm":       {Provides: []string{"rpm-prov"}, Conflicts: []string{"rpm-con < 2"}},
+				"apk":       {Depends: []string{"apk-dep"}, Recommends: []string{"apk-rec"}, Suggests: []string{"apk-sug"}, Conflicts: []string{"apk-con"}, Replaces: []string{"apk-rep"}, Provides: []string{"apk-prov"}},
+				"archlinux": {Suggests: []string{"arch-sug: why"}},
+			}
+			switch variant {
+			case 2:
+				c.Ov["ipk"] = &OvCfg{} // a block that overrides nothing here
+			case 3:
+				c.Ov = map[string]*OvCfg{"ipk": {Depends: []string{"ipk-dep"}, Replaces: []string{"ipk-rep"}}}
+			}
+			c.Entries = []Entry{plain}
+			add(c, smallTree(), "override-lists")
+		}
 	case "scripts":
 		spec := [][]string{{"deb.rules", "rpm.pretrans", "apk.preupgrade", "archlinux.preupgrade"},
 			{"deb.templates", "rpm.posttrans", "apk.postupgrade", "archlinux.postupgrade"},
@@ -220,7 +263,31 @@ func systematicPkgCases(id *int, profile, scratch string, rng *rand.Rand, tier s
 				add(c, nodes, "aligned-scripts")
 			}
 		}
+		// override blocks: the common scripts are overridden field by field - a block that restates some of them leaves the others
+		for variant := 0; variant < 4; variant++ {
+			c := baseCfg("ovscriptpkg")
+			base := [][]string{{"preinstall", "postinstall"}, {"preinstall", "postinstall", "preremove", "postremove"}, {"postremove"}, {}}[variant]
+			nodes := append(smallTree(), addScripts(rng, c, append(append([]string{}, base...), "deb.rules", "rpm.posttrans"))...)
+			if len(base) == 0 {
+				nodes = append(nodes, Node{P: "scripts", Kind: "dir", Mode: 0o755, Mt: 1450000000})
+			}
+			nodes = append(nodes, ovScripts(c, "deb", []string{"postinstall"})...)
+			nodes = append(nodes, ovScripts(c, "rpm", []string{"preremove", "preinstall"})...)
+			nodes = append(nodes, ovScripts(c, "apk", commonSlots)...)
+			nodes = append(nodes, ovScripts(c, "archlinux", []string{"preinstall"})...)
+			c.Ov["ipk"] = &OvCfg{Depends: []string{"only-a-relation"}} // a block without scripts
+			c.Entries = []Entry{plain}
+			add(c, nodes, "override-scripts")
+		}
 	case "payload":
+		// override blocks and the umask: a base umask stays in force for a format whose block does not set one
+		for _, bu := range []int{0, 0o27, 0o77} {
+			c := baseCfg("ovumaskpkg")
+			c.Umask = bu
+			c.Ov = map[string]*OvCfg{"deb": {Depends: []string{"x"}}, "rpm": {Umask: 0o77}, "apk": {Umask: 0o02}, "archlinux": {Umask: 0o27, Depends: []string{"y"}}}
+			c.Entries = []Entry{plain, {Type: "tree", Src: "src/sub", Dst: "/usr/share/ovumask"}, {Type: "config", Src: "src/app.conf", Dst: "/etc/ovumask/app.conf"}}
+			add(c, smallTree(), "override-umask")
+		}
 		// every (entry type x packager tag), alone next to a plain file
 		types := []struct{ t, src string }{{"file", "src/app.conf"}, {"", "src/app.conf"}, {"config", "src/app.conf"}, {"config|noreplace", "src/app.conf"},
 			{"config|missingok", "src/app.conf"}, {"dir", ""}, {"symlink", "/usr/bin/tool"}, {"tree", "src/sub"}, {"ghost", ""},
